@@ -2,6 +2,8 @@ import ComposeVerif.Ops.Common
 import ComposeVerif.Model.Template
 import ComposeVerif.Spec.Template
 import ComposeVerif.Model.TemplateOpts
+import ComposeVerif.Model.TemplateSites
+import ComposeVerif.Model.TemplateParse
 /-! line-protocol ops for C07: `subst` -/
 open Lean
 namespace CV.Ops.C07
@@ -61,9 +63,23 @@ def substSpec : Handler := fun args =>
   match ast with
   | some a =>
     match a.mapM segOfJson with
-    | some t => Json.mkObj [("wf", Json.bool (WF t)), ("wf_ml", Json.bool (WFml t)), ("rendered", str (renderL t)), ("eval", outJson (evalOut env t))]
+    | some t =>
+      -- completeness of the checked parser on this AST: its rendering is accepted, with the same meaning
+      let parseOk := match parse? (renderL t) with
+        | some t' => decide (evalOut env t' = evalOut env t)
+        | none => false
+      Json.mkObj [("wf", Json.bool (WF t)), ("wf_ml", Json.bool (WFml t)), ("rendered", str (renderL t)),
+        ("eval", outJson (evalOut env t)), ("parse_ok", Json.bool parseOk)]
     | none => Json.mkObj [("bad", "ast")]
   | _ => Json.mkObj [("bad", "ast")]
+
+/-- `substStr`: a *string* — the model of the code on it, and, when the checked parser accepts it, the grammar's verdict -/
+def substStr : Handler := fun args =>
+  let t := (getStr args "t").toList
+  let env := envOfList (getStrMap args "env")
+  match parse? t with
+  | some ast => Json.mkObj [("model", outJson (CV.Template.subst env t)), ("parsed", Json.bool true), ("eval", outJson (evalOut env ast))]
+  | none => Json.mkObj [("model", outJson (CV.Template.subst env t)), ("parsed", Json.bool false)]
 
 /-! ### `substOpts`: `SubstituteWithOptions` under a named configuration (mirrors `harness/p/c07/c07_opts.go`) -/
 
@@ -100,5 +116,97 @@ def substOpts : Handler := fun args =>
   let env := envOfList (getStrMap args "env")
   outJson (substWith (cfgOf (getStr args "cfg")) env t)
 
-def handlers2 : List (String × Handler) := [("substSpec", substSpec), ("substOpts", substOpts)]
+/-! ### `substSite`: a string value at a call site of the loader (mirrors `harness/p/c07/c07_sites.go`) -/
+
+def pairsOfJson (j : Json) : Sites.GoMap :=
+  match j with
+  | .arr a => a.toList.filterMap fun p =>
+    match p with
+    | .arr #[.str k, .str v] => some (k.toList, v.toList)
+    | _ => none
+  | _ => []
+
+/-- the grammar's reading of several env files of one include entry (values are ASTs; `Spec/Template.lean` only) -/
+def specFile2 (environment envMap : Sites.GoMap) : List (Str × List Seg) → Sites.GoMap → Sites.FileRes
+  | [], acc => .ok acc
+  | (k, t) :: r, acc =>
+    match evalOut (Sites.layered [environment, envMap, acc]) t with
+    | .ok v => specFile2 environment envMap r ((k, v) :: acc)
+    | o => .fail o
+def specFiles (environment : Sites.GoMap) : List (List (Str × List Seg)) → Sites.GoMap → Sites.FileRes
+  | [], em => .ok em
+  | f :: fs, em =>
+    match specFile2 environment em f [] with
+    | .ok m => specFiles environment fs (m ++ em)
+    | .fail o => .fail o
+
+def rawLinesOfJson (a : Array Json) : Option (List (Str × List Seg)) :=
+  a.toList.mapM fun l =>
+    let la : List Json := match l.getObjVal? "ast" with
+      | .ok (.arr x) => x.toList
+      | _ => []
+    match la.mapM segOfJson with
+    | some t => some ((getStr l "k").toList, t)
+    | none => none
+
+/-- `env`: the project environment; `layers`: the env files of the enclosing include entries, outermost first.
+    Answers with the grammar's verdict in the environment the *glue model* builds (`includeChain` + `lookupEnv`)
+    and with the model of the code at that site (`siteSubst`). -/
+def substSite : Handler := fun args =>
+  let envMap : Sites.GoMap := (getStrMap args "env").map fun (k, v) => (k.toList, v.toList)
+  let layers : List Sites.GoMap := match args.getObjVal? "layers" with
+    | .ok (.arr a) => a.toList.map pairsOfJson
+    | _ => []
+  let ast : Option (List Json) := match args.getObjVal? "ast" with
+    | .ok (.arr a) => some a.toList
+    | .ok .null => some []
+    | _ => none
+  let rawLines : Option (List (Str × List Seg)) := match args.getObjVal? "raw" with
+    | .ok (.arr a) => a.toList.mapM fun l =>
+      let la : List Json := match l.getObjVal? "ast" with
+        | .ok (.arr x) => x.toList
+        | _ => []
+      match la.mapM segOfJson with
+      | some t => some ((getStr l "k").toList, t)
+      | none => none
+    | _ => none
+  let rawFiles : Option (List (List (Str × List Seg))) := match args.getObjVal? "raw2" with
+    | .ok (.arr fs) => fs.toList.mapM fun f => match f with
+      | .arr a => rawLinesOfJson a
+      | _ => none
+    | _ => none
+  match ast with
+  | some a =>
+    match a.mapM segOfJson with
+    | some t =>
+      match rawFiles with
+      | some files =>
+        -- site `include-raw2`: several env files in one include entry, values are templates
+        let wfAll := files.all fun f => f.all fun l => WF l.2
+        let eval := match specFiles envMap files [] with
+          | .ok f => evalOut (Sites.layered [envMap, f]) t
+          | .fail o => o
+        let model := Sites.siteSubstRawFiles envMap (files.map fun f => f.map fun l => (l.1, renderL l.2)) (renderL t)
+        Json.mkObj [("wf", Json.bool (WF t && wfAll)), ("wf_ml", Json.bool (WFml t && wfAll)), ("rendered", str (renderL t)),
+          ("eval", outJson eval), ("model", outJson model)]
+      | none =>
+      match rawLines with
+      | some lines =>
+        -- site `include-raw`: one env file whose values are templates themselves
+        let wfAll := lines.all fun l => WF l.2
+        let eval := match Sites.specFileValues envMap lines [] with
+          | .ok f => evalOut (Sites.layered [envMap, f]) t
+          | .fail o => o
+        let model := Sites.siteSubstRaw envMap (lines.map fun l => (l.1, renderL l.2)) (renderL t)
+        Json.mkObj [("wf", Json.bool (WF t && wfAll)), ("wf_ml", Json.bool (WFml t && wfAll)), ("rendered", str (renderL t)),
+          ("eval", outJson eval), ("model", outJson model),
+          ("lines", Json.arr (lines.map fun l => str (renderL l.2)).toArray)]
+      | none =>
+      let env := Sites.lookupEnv (Sites.includeChain envMap layers)
+      Json.mkObj [("wf", Json.bool (WF t)), ("wf_ml", Json.bool (WFml t)), ("rendered", str (renderL t)),
+        ("eval", outJson (evalOut env t)), ("model", outJson (Sites.siteSubst envMap layers (renderL t)))]
+    | none => Json.mkObj [("bad", "ast")]
+  | _ => Json.mkObj [("bad", "ast")]
+
+def handlers2 : List (String × Handler) := [("substSpec", substSpec), ("substOpts", substOpts), ("substSite", substSite), ("substStr", substStr)]
 end CV.Ops.C07
